@@ -8,6 +8,7 @@ import UnicLocale.Model.Cmp
 import UnicLocale.Model.Macros
 import UnicLocale.Model.Serde
 import UnicLocale.Model.Glue
+import UnicLocale.Model.Routes
 import Lean.Data.Json.Parser
 import UnicLocale.Spec.Grammar
 import UnicLocale.Spec.Locale
@@ -383,37 +384,6 @@ def ansHistBoth (a : List String) : String :=
 
 def flagOf (s : String) : Bool := s == "1"
 
-/-- the value rebuilt along route `k` through the safe API (harness: `route_value`) -/
-def routeValue (x : Locale) (k : Nat) : Option Locale :=
-  let vs := x.id.variantList
-  match k with
-  | 0 => some { x with id := x.id.setVariants vs }
-  | 1 => some { x with id := (x.id.clearVariants).setVariants vs }
-  | 2 =>
-    let (l, s, r, vv, e) := x.intoParts
-    (ExtMap.fromBytes e).toOption.map fun em => Locale.fromParts l s r vv (some em)
-  | 3 => (Locale.fromBytes x.display).toOption
-  | 4 => some { (Locale.ofLangId x.toLangId) with ext := x.ext }
-  | 5 =>
-    let u := x.ext.unicode
-    let ops : List Op :=
-      u.attributes.map .removeAttribute ++ u.attributes.reverse.map .setAttribute ++
-      (u.keywords.reverse.map fun kv => [Op.removeKeyword kv.1, Op.setKeyword kv.1 kv.2]).flatten ++
-      (x.ext.transform.tfields.reverse.map fun kv => [Op.removeTField kv.1, Op.setTField kv.1 kv.2]).flatten ++
-      (match x.ext.transform.tlang with
-        | some tl => [Op.clearTLang, Op.setTLang tl.display]
-        | none => []) ++
-      [Op.clearTags] ++ x.ext.priv.reverse.map .addTag
-    some (runState Gen.tables x ops)
-  | 6 =>
-    match Language.fromBytes (Language.asStr x.id.language) with
-    | .ok l =>
-      let sc := x.id.script.bind fun s => (Script.fromBytes s).toOption
-      let rg := x.id.region.bind fun s => (Region.fromBytes s).toOption
-      some { x with id := { x.id with language := l, script := sc, region := rg } }
-    | _ => none
-  | _ => some (Locale.fromParts x.id.language x.id.script x.id.region (vs.reverse ++ vs) (some x.ext))
-
 /-- `LanguageIdentifier::maximize/minimize` as the statement describes them: the look-up result replaces the three
     fields and the call reports `true`; no result leaves the value alone and reports `false` -/
 def specApply (f : Language → Option Bytes → Option Bytes → Option (Language × Option Bytes × Option Bytes)) (x : LangId) :
@@ -666,7 +636,7 @@ def answer (line : String) : String :=
         match Locale.fromBytes v with
         | .ok x =>
           let k := ((a[1]?).bind String.toNat?).getD 0
-          match routeValue x k with
+          match routeValue Gen.tables x k with
           | some y => s!"ok eq={b01 (x == y)} cmp={ordStr (cmpLoc x y)} he={b01 (x == y)} se={b01 (x.display == y.display)}"
           | none => "ok fail"
         | .err e => errCode e
@@ -679,7 +649,7 @@ def answer (line : String) : String :=
           let ra := flagOf (a[2]?.getD "0")
           let rb := flagOf (a[3]?.getD "0")
           let k := ((a[4]?).bind String.toNat?).getD 0
-          match routeValue x k with
+          match routeValue Gen.tables x k with
           | some x2 =>
             -- the reference is computed on the parsed value: every route is the identity on the abstract value
             withSpec s!"ok {b01 (Locale.isMatch x2 y ra rb)} {b01 (LangId.isMatch x2.id y.id ra rb)} {b01 (Locale.isMatch y x2 rb ra)}"
